@@ -120,6 +120,27 @@ func propC11(o *propOpts) *propResult {
 		}
 	}
 	r := &rng{s: o.seed}
+	// long lists: the whole pool as one list, and many copies of each member (state carried from one statement to the next —
+	// a counter, a flag, a buffer of the parser that is not reset — shows only after many statements)
+	copies := 260
+	if o.tier == "thorough" {
+		copies = 1200
+	}
+	for _, name := range []string{"ParseStatements", "ParseDDLs", "ParseDMLs"} {
+		pool := pools[name]
+		each(entryByName(name), strings.Join(pool, "\n;\n"))
+		for i, st := range pool {
+			if name == "ParseStatements" && (cfDirIsDDLorDML(st) || (o.tier != "thorough" && i%2 != int(o.seed%2))) {
+				continue
+			}
+			var sb strings.Builder
+			for j := 0; j < copies; j++ {
+				sb.WriteString(st)
+				sb.WriteString([]string{";", " ;\n", "\n;\n", "; -- n\n", ";;"}[j%5])
+			}
+			each(entryByName(name), sb.String())
+		}
+	}
 	n := 1200
 	if o.tier == "thorough" {
 		n = 30000
@@ -150,6 +171,17 @@ func propC11(o *propOpts) *propResult {
 	return res
 }
 
+// cfDirIsDDLorDML: the statement is also a member of the DDL or DML pool (its long list is built there)
+func cfDirIsDDLorDML(st string) bool {
+	u := strings.ToUpper(strings.TrimLeft(st, " \n\t"))
+	for _, p := range []string{"CREATE", "ALTER", "DROP", "INSERT", "UPDATE", "DELETE", "GRANT", "REVOKE", "RENAME", "ANALYZE"} {
+		if strings.HasPrefix(u, p) {
+			return true
+		}
+	}
+	return false
+}
+
 // ---------------------------------------------------------------------------------------------
 // C16
 
@@ -173,9 +205,9 @@ func respell(r *rng, s string, toks []token.Token, level int) string {
 			}
 		case hadTrivia:
 			sb.WriteString(c16Trivia[r.intn(len(c16Trivia))])
-		case r.intn(4) == 0 && t.Kind != "." && toks[i-1].Kind != "." && toks[i-1].Kind != "@" && !strings.HasPrefix(string(toks[i-1].Kind), "<") || false:
-			// insert trivia between two tokens that were adjacent — it begins with a blank, so it cannot merge with the
-			// previous token into a comment opener; not around '.' (a.1 / a . 1 tokenise alike but keep it simple)
+		case r.intn(4) == 0:
+			// insert trivia between two tokens that were adjacent — it begins with a blank (side condition S1 of the proved
+			// trivia lemma MF.Props.C16.trivia_lemma, which makes ANY two adjacent tokens separable, also around '.')
 			sb.WriteString(c16Trivia[r.intn(len(c16Trivia))])
 		}
 		raw := t.Raw
